@@ -231,11 +231,14 @@ inductive RegOp where
   | add (p k src : String)
   /-- `ref.To = root` -/
   | set (p k : String) (root : RRoot)
+  /-- `refTo` on a missing key immediately followed by `ref.To = root` (enums, exposed oneofs) -/
+  | link (p k src : String) (root : RRoot)
   deriving DecidableEq, Repr, Inhabited
 
 def Reg.apply (reg : Reg) : RegOp → Reg
   | .add p k src => if reg.has p k then reg else reg ++ [⟨p, k, none, src⟩]
   | .set p k root => reg.map fun e => if e.pkg == p && e.key == k then { e with to := some root } else e
+  | .link p k src root => if reg.has p k then reg else reg ++ [⟨p, k, some root, src⟩]
 
 def Reg.applyAll (reg : Reg) (ops : List RegOp) : Reg := ops.foldl Reg.apply reg
 
@@ -268,6 +271,38 @@ def Ext.vtype (e : Ext) : VType :=
 
 def isRequired (v : Validate) : Bool := v.required == some true
 
+/-! ## outcome plumbing -/
+
+theorem bind_eq_ok {α β} {x : Outcome α} {f : α → Outcome β} {b : β} (h : x.bind f = .ok b) :
+    ∃ a, x = .ok a ∧ f a = .ok b := by
+  cases x with
+  | ok a => exact ⟨a, rfl, h⟩
+  | err e => cases h
+  | panic w => cases h
+
+theorem bind_noPanic {α β} {x : Outcome α} {f : α → Outcome β} (hx : ∀ w, x ≠ .panic w)
+    (hf : ∀ a, x = .ok a → ∀ w, f a ≠ .panic w) : ∀ w, x.bind f ≠ .panic w := by
+  intro w
+  cases x with
+  | ok a => exact hf a rfl w
+  | err e => simp [Outcome.bind]
+  | panic w' => exact absurd rfl (hx w')
+
+theorem map_eq_ok {α β} {x : Outcome α} {f : α → β} {b : β} (h : x.map f = .ok b) :
+    ∃ a, x = .ok a ∧ f a = b := by
+  cases x with
+  | ok a => simp only [Outcome.map, Outcome.ok.injEq] at h; exact ⟨a, rfl, h⟩
+  | err e => cases h
+  | panic w => cases h
+
+theorem map_noPanic {α β} {x : Outcome α} {f : α → β} (hx : ∀ w, x ≠ .panic w) :
+    ∀ w, x.map f ≠ .panic w := by
+  intro w
+  cases x with
+  | ok a => simp [Outcome.map]
+  | err e => simp [Outcome.map]
+  | panic w' => exact absurd rfl (hx w')
+
 /-! ## scalars -/
 
 /-- the `const` / `in` / `not_in` rejections of the numeric arms; `getter` is the rule case the
@@ -283,101 +318,102 @@ def numRules (e : Ext) (getter : String) : Outcome Unit :=
     else .ok ()
   | _ => .ok ()
 
+/-- the format a pattern stands for (`wellKnownStringPatterns`) -/
+def patternFormat (pat : String) : Option String :=
+  if pat == "date" then some "date" else if pat == "number" then some "number"
+  else if pat == "id62" then some "id62" else none
+
+/-- `buildFromStringProto`, validate part: (format, looksLikeKey) -/
+def stringValidate (v : Option Validate) : Outcome (Option String × Bool) :=
+  match v with
+  | none => .ok (none, false)
+  | some val =>
+    match val.type with
+    | .none => .ok (none, false)
+    | .string wk wkVal pat =>
+      let fmt0 := patternFormat pat
+      if wk == "none" then .ok (fmt0, false)
+      else if wk == "uuid" then .ok (if wkVal then some "uuid" else fmt0, true)
+      else if wk == "email" then .ok (if wkVal then some "email" else fmt0, false)
+      else if wk == "hostname" then .ok (if wkVal then some "hostname" else fmt0, false)
+      else if wk == "ipv4" then .ok (if wkVal then some "ipv4" else fmt0, false)
+      else if wk == "ipv6" then .ok (if wkVal then some "ipv6" else fmt0, false)
+      else if wk == "uri" then .ok (if wkVal then some "uri" else fmt0, false)
+      else .err "unknown string constraint"
+    | _ => .err "constraint for string is of another type"
+
+/-- `buildFromStringProto`, `(j5.list.v1.field).string.foreign_key` part: the format afterwards -/
+def stringForeignKey (fmt1 : Option String) (sw fk : String) : Outcome (Option String) :=
+  if sw == "foreign_key" then
+    if fk == "unique_string" then
+      (match fmt1 with
+        | some _ => .err "format not compatible with list.unique_string"
+        | none => .ok (some "natural_key"))
+    else if fk == "id62" then
+      (match fmt1 with
+        | some f => if f == "id62" then .ok fmt1 else .err "format not compatible with list.id62"
+        | none => .ok (some "id62"))
+    else if fk == "uuid" then
+      (match fmt1 with
+        | some f => if f == "uuid" then .ok fmt1 else .err "format not compatible with list.uuid"
+        | none => .ok (some "uuid"))
+    else .ok fmt1
+  else .ok fmt1
+
+/-- `buildFromStringProto`, open_text part -/
+def stringOpenText (sw : String) (fmt2 : Option String) (key : Option KeySum) : Outcome Unit :=
+  if sw == "open_text" then
+    if fmt2.isSome then .err "open_text and format do not match"
+    else if key.isSome then .err "open_text and key constraint do not match"
+    else .ok ()
+  else .ok ()
+
+/-- `buildFromStringProto`, the final decision string / key -/
+def stringKind (like : Bool) (keyOpt : Option J5Sum) : Outcome STag :=
+  if !like then .ok .string
+  else
+    match keyOpt with
+    | some j =>
+      if j.keyType == "format" then
+        if j.keyFormat == 3 || j.keyFormat == 2 then .ok .key else .err "unknown key format"
+      else .ok .key
+    | none => .ok .key
+
 /-- `buildFromStringProto`: string or key, or an error -/
 def buildString (e : Ext) (key : Option KeySum) : Outcome STag :=
-  -- validate part: format from pattern / well-known
-  let v : Outcome (Option String × Bool) :=
-    match e.validate with
-    | none => .ok (none, false)
-    | some val =>
-      match val.type with
-      | .none => .ok (none, false)
-      | .string wk wkVal pat =>
-        let fmt0 : Option String :=
-          if pat == "date" then some "date" else if pat == "number" then some "number"
-          else if pat == "id62" then some "id62" else none
-        if wk == "none" then .ok (fmt0, false)
-        else if wk == "uuid" then .ok (if wkVal then some "uuid" else fmt0, true)
-        else if wk == "email" then .ok (if wkVal then some "email" else fmt0, false)
-        else if wk == "hostname" then .ok (if wkVal then some "hostname" else fmt0, false)
-        else if wk == "ipv4" then .ok (if wkVal then some "ipv4" else fmt0, false)
-        else if wk == "ipv6" then .ok (if wkVal then some "ipv6" else fmt0, false)
-        else if wk == "uri" then .ok (if wkVal then some "uri" else fmt0, false)
-        else .err "unknown string constraint"
-      | _ => .err "constraint for string is of another type"
-  match v with
-  | .err x => .err x
-  | .panic w => .panic w
-  | .ok (fmt1, like1) =>
-    -- list part: (j5.list.v1.field).string
+  (stringValidate e.validate).bind fun (fmt1, like1) =>
     let (sw, fk) : String × String :=
       match e.list with
       | some l => if l.case == "string" then (l.sw, l.fk) else ("none", "none")
       | none => ("none", "none")
     let fkKnown := sw == "foreign_key" && (fk == "unique_string" || fk == "id62" || fk == "uuid")
-    let l : Outcome (Option String) :=
-      if sw == "foreign_key" then
-        if fk == "unique_string" then
-          (match fmt1 with | some _ => .err "format not compatible with list.unique_string"
-                           | none => .ok (some "natural_key"))
-        else if fk == "id62" then
-          (match fmt1 with
-            | some f => if f == "id62" then .ok fmt1 else .err "format not compatible with list.id62"
-            | none => .ok (some "id62"))
-        else if fk == "uuid" then
-          (match fmt1 with
-            | some f => if f == "uuid" then .ok fmt1 else .err "format not compatible with list.uuid"
-            | none => .ok (some "uuid"))
-        else .ok fmt1
-      else .ok fmt1
-    match l with
-    | .err x => .err x
-    | .panic w => .panic w
-    | .ok fmt2 =>
-      let openText : Outcome Unit :=
-        if sw == "open_text" then
-          if fmt2.isSome then .err "open_text and format do not match"
-          else if key.isSome then .err "open_text and key constraint do not match"
-          else .ok ()
-        else .ok ()
-      match openText with
-      | .err x => .err x
-      | .panic w => .panic w
-      | .ok () =>
+    (stringForeignKey fmt1 sw fk).bind fun fmt2 =>
+      (stringOpenText sw fmt2 key).bind fun _ =>
         let keyOpt : Option J5Sum :=
           match e.j5 with
           | some j => if j.case == "key" then some j else none
           | none => none
-        let like := like1 || fkKnown || key.isSome || fmt2 == some "id62" || keyOpt.isSome
-        if !like then .ok .string
-        else
-          match keyOpt with
-          | some j =>
-            if j.keyType == "format" then
-              if j.keyFormat == 3 || j.keyFormat == 2 then .ok .key else .err "unknown key format"
-            else .ok .key
-          | none => .ok .key
+        stringKind (like1 || fkKnown || key.isSome || fmt2 == some "id62" || keyOpt.isSome) keyOpt
 
 /-- `buildScalarType` (shape: the J5 scalar arm and its integer / float format) -/
 def buildScalar (kind : PKind) (e : Ext) (key : Option KeySum) : Outcome (STag × Nat) :=
   match kind with
-  | .string => match buildString e key with
-    | .ok t => .ok (t, 0) | .err x => .err x | .panic w => .panic w
+  | .string => (buildString e key).map fun t => (t, 0)
   | .bool => .ok (.bool, 0)
-  | .int32 | .sint32 => match numRules e "int32" with
-    | .ok () => .ok (.integer, 1) | .err x => .err x | .panic w => .panic w
-  | .uint32 => match numRules e "uint32" with
-    | .ok () => .ok (.integer, 3) | .err x => .err x | .panic w => .panic w
-  | .int64 | .sint64 => match numRules e "int64" with
-    | .ok () => .ok (.integer, 2) | .err x => .err x | .panic w => .panic w
-  | .uint64 => match numRules e "uint64" with
-    | .ok () => .ok (.integer, 4) | .err x => .err x | .panic w => .panic w
-  | .float => match numRules e "float" with
-    | .ok () => .ok (.float, 1) | .err x => .err x | .panic w => .panic w
-  | .double => match numRules e "double" with
-    | .ok () => .ok (.float, 2) | .err x => .err x | .panic w => .panic w
+  | .int32 | .sint32 => (numRules e "int32").map fun _ => (.integer, 1)
+  | .uint32 => (numRules e "uint32").map fun _ => (.integer, 3)
+  | .int64 | .sint64 => (numRules e "int64").map fun _ => (.integer, 2)
+  | .uint64 => (numRules e "uint64").map fun _ => (.integer, 4)
+  | .float => (numRules e "float").map fun _ => (.float, 1)
+  | .double => (numRules e "double").map fun _ => (.float, 2)
   | .bytes => .ok (.bytes, 0)
   | _ => .err "unsupported field type"
+
+/-- the full names `wktSchema` knows -/
+def isWkt (full : String) : Bool :=
+  full == "google.protobuf.Timestamp" || full == "google.protobuf.Duration" ||
+  full == "j5.types.date.v1.Date" || full == "j5.types.decimal.v1.Decimal" ||
+  full == "google.protobuf.Struct" || full == "j5.types.any.v1.Any" || full == "google.protobuf.Any"
 
 /-- `wktSchema`: `none` = not a well-known type -/
 def wktSchema (full : String) (e : Ext) : Outcome (Option RField) :=
@@ -394,6 +430,10 @@ def wktSchema (full : String) (e : Ext) : Outcome (Option RField) :=
   else if full == "google.protobuf.Struct" then .ok (some (.map .any))
   else if full == "j5.types.any.v1.Any" || full == "google.protobuf.Any" then .ok (some .any)
   else .ok none
+
+/-- a message-kind field whose target is neither well-known nor an (unsupported) google type:
+the reader looks the descriptor up and builds its schema -/
+def needsLookup (full : String) : Bool := !isWkt full && !full.startsWith "google.protobuf."
 
 /-! ## enums -/
 
@@ -421,37 +461,32 @@ def enumRules (opts : List (String × Int)) (ins notIns : List Int) : Outcome Un
   else if notIns.any fun n => !optionByNumber opts n && n != 0 then .err "enum value not found"
   else .ok ()
 
-/-- `buildEnumFieldSchema`: the registry updates and the field shape -/
-def buildEnumField (ds : DescSet) (reg : Reg) (full p k : String) (e : Ext) :
+/-- `ref, didExist := newRefPlaceholder(…); if !didExist { built, err := buildEnum(…); ref.To = built }`:
+the target the reference has afterwards, and the registry update -/
+def enumTarget (reg : Reg) (full : String) (en : EnumD) : Outcome (Option RRoot × List RegOp) :=
+  match reg.find en.pkg en.split with
+  | some ent => .ok (ent.to, [])
+  | none => (buildEnum en).map fun r => (some r, [.link en.pkg en.split full r])
+
+/-- `enumSchema := ref.To.(*EnumSchema)` and the rule translation -/
+def enumCheck (to : Option RRoot) (vt : VType) : Outcome Unit :=
+  match vt with
+  | .enum ins notIns =>
+    match to with
+    | some (.enum _ _ _ opts) => enumRules opts ins notIns
+    | some _ => .panic "interface conversion: RootSchema is not *EnumSchema"
+    | none => .panic "interface conversion: RootSchema is nil, not *EnumSchema"
+  | _ => .ok ()
+
+/-- `buildEnumFieldSchema`: the registry updates and the field shape. The schema name is that of
+the enum descriptor (`splitDescriptorName(src.Enum())`). -/
+def buildEnumField (ds : DescSet) (reg : Reg) (full : String) (e : Ext) :
     Outcome (RField × List RegOp) :=
-  -- ref, didExist := newRefPlaceholder(…)
-  let built : Outcome (Option RRoot × List RegOp) :=
-    match reg.find p k with
-    | some ent => .ok (ent.to, [])
-    | none =>
-      match ds.enum? full with
-      | none => .panic "enum descriptor not in the set"
-      | some en =>
-        match buildEnum en with
-        | .ok r => .ok (some r, [.add p k full, .set p k r])
-        | .err x => .err x
-        | .panic w => .panic w
-  match built with
-  | .err x => .err x
-  | .panic w => .panic w
-  | .ok (to, ops) =>
-    match e.vtype with
-    | .enum ins notIns =>
-      -- enumSchema := ref.To.(*EnumSchema)
-      match to with
-      | some (.enum _ _ _ opts) =>
-        match enumRules opts ins notIns with
-        | .ok () => .ok (.enum ⟨p, k⟩, ops)
-        | .err x => .err x
-        | .panic w => .panic w
-      | some _ => .panic "interface conversion: RootSchema is not *EnumSchema"
-      | none => .panic "interface conversion: RootSchema is nil, not *EnumSchema"
-    | _ => .ok (.enum ⟨p, k⟩, ops)
+  match ds.enum? full with
+  | none => .panic "enum descriptor not in the set"
+  | some en =>
+    (enumTarget reg full en).bind fun (to, ops) =>
+      (enumCheck to e.vtype).map fun _ => (.enum ⟨en.pkg, en.split⟩, ops)
 
 /-! ## messages -/
 
@@ -502,29 +537,30 @@ structure Built where
   push : Option Msg
   deriving Inhabited
 
+/-- the part of `buildMessageFieldSchema` after the well-known types: look the message up and
+reference it, registering a placeholder (and asking for its schema) when the name is free. The
+schema name is that of the descriptor itself (`splitDescriptorName(msg)`). -/
+def referenceMessage (ds : DescSet) (reg : Reg) (full : String) (flatten : Bool) : Outcome Built :=
+  if full.startsWith "google.protobuf." then .err "unsupported google type"
+  else
+    match ds.msg? full with
+    | none => .panic "message descriptor not in the set"
+    | some m =>
+      let f : RField :=
+        if isOneofWrapper m then .oneof ⟨m.pkg, m.split⟩ else .object ⟨m.pkg, m.split⟩ flatten
+      if reg.has m.pkg m.split then .ok ⟨f, [], none⟩
+      else .ok ⟨f, [.add m.pkg m.split full], some m⟩
+
 /-- `buildMessageFieldSchema` -/
-def buildMessageField (ds : DescSet) (reg : Reg) (full p k : String) (e : Ext) : Outcome Built :=
+def buildMessageField (ds : DescSet) (reg : Reg) (full : String) (e : Ext) : Outcome Built :=
   let flatten : Bool :=
     match e.j5 with
     | some j => (j.case == "message" || j.case == "object") && j.flatten
     | none => false
-  match wktSchema full e with
-  | .err x => .err x
-  | .panic w => .panic w
-  | .ok (some f) => .ok ⟨f, [], none⟩
-  | .ok none =>
-    if full.startsWith "google.protobuf." then .err "unsupported google type"
-    else
-      match ds.msg? full with
-      | none => .panic "message descriptor not in the set"
-      | some m =>
-        -- the schema name is that of the descriptor itself (`splitDescriptorName(msg)`); the
-        -- target summary of the field carries the same pair
-        let _ := (p, k)
-        let f : RField :=
-          if isOneofWrapper m then .oneof ⟨m.pkg, m.split⟩ else .object ⟨m.pkg, m.split⟩ flatten
-        if reg.has m.pkg m.split then .ok ⟨f, [], none⟩
-        else .ok ⟨f, [.add m.pkg m.split full], some m⟩
+  (wktSchema full e).bind fun w =>
+    match w with
+    | some f => .ok ⟨f, [], none⟩
+    | none => referenceMessage ds reg full flatten
 
 /-- `buildSchema` -/
 def buildSchema (ds : DescSet) (reg : Reg) (kind : PKind) (target : Target) (e : Ext)
@@ -532,24 +568,18 @@ def buildSchema (ds : DescSet) (reg : Reg) (kind : PKind) (target : Target) (e :
   match kind with
   | .message =>
     match target with
-    | .msg full p k => buildMessageField ds reg full p k e
+    | .msg full _ _ => buildMessageField ds reg full e
     | _ => .panic "message field without message descriptor"
   | .enum =>
     match target with
-    | .enum full p k =>
-      match buildEnumField ds reg full p k e with
-      | .ok (f, ops) => .ok ⟨f, ops, none⟩
-      | .err x => .err x
-      | .panic w => .panic w
+    | .enum full _ _ => (buildEnumField ds reg full e).map fun (f, ops) => ⟨f, ops, none⟩
     | _ => .panic "enum field without enum descriptor"
-  | _ =>
-    match buildScalar kind e key with
-    | .ok (tag, fmt) => .ok ⟨.scalar tag fmt kind.num "", [], none⟩
-    | .err x => .err x
-    | .panic w => .panic w
+  | _ => (buildScalar kind e key).map fun (tag, fmt) => ⟨.scalar tag fmt kind.num "", [], none⟩
 
-/-- one field of `messageProperties`: the property and what `buildSchema` asked for -/
-def buildProperty (ds : DescSet) (reg : Reg) (f : FieldD) : Outcome (RProp × Built) :=
+/-- the arguments of the `buildSchema` call for one field of `messageProperties`, and how the
+property is assembled from the resulting schema; `none` = "map keys must be strings" -/
+def propertyPlan (f : FieldD) :
+    Outcome (PKind × Target × Ext × Option KeySum × (RField → RProp)) :=
   let ev := effective f.validate
   match f.card with
   | .list =>
@@ -557,10 +587,8 @@ def buildProperty (ds : DescSet) (reg : Reg) (f : FieldD) : Outcome (RProp × Bu
       match ev.type with
       | .repeated _ items => items
       | _ => none
-    match buildSchema ds reg f.kind f.target ⟨childV, f.list, none⟩ f.key with
-    | .ok b => .ok (⟨f.jsonName, isRequired ev, false, [f.number], .array b.schema⟩, b)
-    | .err x => .err x
-    | .panic w => .panic w
+    .ok (f.kind, f.target, ⟨childV, f.list, none⟩, f.key,
+      fun s => ⟨f.jsonName, isRequired ev, false, [f.number], .array s⟩)
   | .map =>
     if f.mapKey != some .string then .err "map keys must be strings for J5"
     else
@@ -571,16 +599,17 @@ def buildProperty (ds : DescSet) (reg : Reg) (f : FieldD) : Outcome (RProp × Bu
           match ev.type with
           | .map values => values
           | _ => none
-        match buildSchema ds reg vk vt ⟨childV, none, none⟩ vkey with
-        | .ok b => .ok (⟨f.jsonName, false, false, [f.number], .map b.schema⟩, b)
-        | .err x => .err x
-        | .panic w => .panic w
+        .ok (vk, vt, ⟨childV, none, none⟩, vkey,
+          fun s => ⟨f.jsonName, false, false, [f.number], .map s⟩)
   | .single =>
     let req := isRequired ev
-    match buildSchema ds reg f.kind f.target ⟨some ev, f.list, f.j5⟩ f.key with
-    | .ok b => .ok (⟨f.jsonName, req, !req && f.optionalKw, [f.number], b.schema⟩, b)
-    | .err x => .err x
-    | .panic w => .panic w
+    .ok (f.kind, f.target, ⟨some ev, f.list, f.j5⟩, f.key,
+      fun s => ⟨f.jsonName, req, !req && f.optionalKw, [f.number], s⟩)
+
+/-- one field of `messageProperties`: the property and what `buildSchema` asked for -/
+def buildProperty (ds : DescSet) (reg : Reg) (f : FieldD) : Outcome (RProp × Built) :=
+  (propertyPlan f).bind fun (kind, target, ext, key, mk) =>
+    (buildSchema ds reg kind target ext key).map fun b => (mk b.schema, b)
 
 /-! ## the stack machine -/
 
@@ -613,11 +642,9 @@ def exposeOneofs (m : Msg) (reg : Reg) : Nat → List OneofD →
     if o.synthetic || o.ext != "expose" then exposeOneofs m reg (i + 1) os
     else if reg.has m.pkg o.split then .err "placeholder already exists for oneof wrapper"
     else
-      match exposeOneofs m (reg.apply (.add m.pkg o.split (m.full ++ "." ++ o.name))) (i + 1) os with
-      | .ok (ex, ops) =>
-        .ok ((i, o, []) :: ex,
-          [.add m.pkg o.split (m.full ++ "." ++ o.name), .set m.pkg o.split (.oneof m.pkg o.split [])]
-            ++ ops)
+      let op := RegOp.link m.pkg o.split (m.full ++ "." ++ o.name) (.oneof m.pkg o.split [])
+      match exposeOneofs m (reg.apply op) (i + 1) os with
+      | .ok (ex, ops) => .ok ((i, o, []) :: ex, op :: ops)
       | .err x => .err x
       | .panic w => .panic w
 
@@ -771,6 +798,11 @@ theorem Reg.le_apply (reg : Reg) (op : RegOp) : reg.le (reg.apply op) := by
     · exact h
     · exact Reg.has_append reg _ p k h
   | set p0 k0 root => simp only [Reg.apply]; rw [Reg.has_map_set]; exact h
+  | link p0 k0 src root =>
+    simp only [Reg.apply]
+    split
+    · exact h
+    · exact Reg.has_append reg _ p k h
 
 theorem Reg.le_applyAll (reg : Reg) (ops : List RegOp) : reg.le (reg.applyAll ops) := by
   induction ops generalizing reg with
@@ -813,6 +845,28 @@ theorem unregistered_lt (ds : DescSet) (reg reg' : Reg) (h : reg.le reg') (m : M
     | true => rw [h _ _ hh] at hx; cases hx
 
 /-- a message is pushed only when its name was not registered, and the updates register it -/
+theorem referenceMessage_push (ds : DescSet) (reg : Reg) (full : String) (fl : Bool) (b : Built)
+    (m : Msg) (h : referenceMessage ds reg full fl = .ok b) (hp : b.push = some m) :
+    m ∈ ds.msgs ∧ reg.has m.pkg m.split = false ∧ (reg.applyAll b.ops).has m.pkg m.split = true := by
+  unfold referenceMessage at h
+  split at h
+  · cases h
+  · split at h
+    · cases h
+    · rename_i m' hm'
+      simp only at h
+      split at h
+      · cases h; cases hp
+      · rename_i hhas
+        cases h
+        simp only [Option.some.injEq] at hp
+        subst hp
+        refine ⟨?_, by simpa using hhas, ?_⟩
+        · unfold DescSet.msg? at hm'
+          exact List.mem_of_find?_eq_some hm'
+        · simp only [Reg.applyAll, List.foldl_cons, List.foldl_nil]
+          exact Reg.has_add reg _ _ _
+
 theorem buildSchema_push (ds : DescSet) (reg : Reg) (kind : PKind) (target : Target) (e : Ext)
     (key : Option KeySum) (b : Built) (m : Msg)
     (h : buildSchema ds reg kind target e key = .ok b) (hp : b.push = some m) :
@@ -824,61 +878,27 @@ theorem buildSchema_push (ds : DescSet) (reg : Reg) (kind : PKind) (target : Tar
     · rename_i full p k
       unfold buildMessageField at h
       simp only at h
-      split at h
-      · cases h
-      · cases h
-      · cases h; cases hp
-      · split at h
-        · cases h
-        · split at h
-          · cases h
-          · rename_i m' hm'
-            split at h
-            · cases h; cases hp
-            · rename_i hhas
-              cases h
-              simp only [Option.some.injEq] at hp
-              subst hp
-              refine ⟨?_, by simpa using hhas, ?_⟩
-              · unfold DescSet.msg? at hm'
-                exact List.mem_of_find?_eq_some hm'
-              · simp only [Reg.applyAll, List.foldl_cons, List.foldl_nil]
-                exact Reg.has_add reg _ _ _
+      obtain ⟨w, _, hw⟩ := bind_eq_ok h
+      split at hw
+      · cases hw; cases hp
+      · exact referenceMessage_push ds reg full _ b m hw hp
     · cases h
   · -- enum
     split at h
-    · split at h
-      · cases h; cases hp
-      · cases h
-      · cases h
+    · obtain ⟨x, _, hx⟩ := map_eq_ok h
+      subst hx; cases hp
     · cases h
-  · split at h
-    · cases h; cases hp
-    · cases h
-    · cases h
+  · obtain ⟨x, _, hx⟩ := map_eq_ok h
+    subst hx; cases hp
 
 theorem buildProperty_push (ds : DescSet) (reg : Reg) (f : FieldD) (prop : RProp) (b : Built)
     (m : Msg) (h : buildProperty ds reg f = .ok (prop, b)) (hp : b.push = some m) :
     m ∈ ds.msgs ∧ reg.has m.pkg m.split = false ∧ (reg.applyAll b.ops).has m.pkg m.split = true := by
   unfold buildProperty at h
-  simp only at h
-  split at h
-  · split at h
-    · rename_i b' hb; cases h; exact buildSchema_push ds reg _ _ _ _ b m hb hp
-    · cases h
-    · cases h
-  · split at h
-    · cases h
-    · split at h
-      · cases h
-      · split at h
-        · rename_i b' hb; cases h; exact buildSchema_push ds reg _ _ _ _ b m hb hp
-        · cases h
-        · cases h
-  · split at h
-    · rename_i b' hb; cases h; exact buildSchema_push ds reg _ _ _ _ b m hb hp
-    · cases h
-    · cases h
+  obtain ⟨⟨kind, target, ext, key, mk⟩, _, h2⟩ := bind_eq_ok h
+  obtain ⟨b', hb', hx⟩ := map_eq_ok h2
+  cases hx
+  exact buildSchema_push ds reg kind target ext key b m hb' hp
 
 theorem place_rest (fr : Frame) (f : FieldD) (prop : RProp) : (place fr f prop).rest = fr.rest := by
   unfold place
@@ -989,7 +1009,7 @@ def enumsLoop (ds : DescSet) (reg : Reg) : List String → Outcome Reg
       if reg.has en.pkg en.split then enumsLoop ds reg rest
       else
         match buildEnum en with
-        | .ok r => enumsLoop ds (reg.applyAll [.add en.pkg en.split full, .set en.pkg en.split r]) rest
+        | .ok r => enumsLoop ds (reg.apply (.link en.pkg en.split full r)) rest
         | .err x => .err x
         | .panic w => .panic w
 
